@@ -39,7 +39,7 @@ def main():
     res = O.Result("random (n<=40, bits, sequence of X/Y/Z/multi-qubit Pauli gates incl. out-of-range indices) for the "
                    "model correspondence; dense checks for n<=6; all (a,b) pairs for n<=3 and random theta/phi for the "
                    "superposition builder")
-    ncases = 300 if a.tier == "quick" else 4000
+    ncases = 800 if a.tier == "quick" else 4000
     terms, real, cases = [], [], []
     for _ in range(ncases):
         n = rng.choice([1, 2, 3, 4, 6, 17, 40])
@@ -94,7 +94,7 @@ def main():
     # superposition builder
     sp_terms, sp_real = [], []
     pairs = [(n, x, y) for n in (1, 2, 3) for x in range(2 ** n) for y in range(2 ** n)]
-    extra = 60 if a.tier == "quick" else 1500
+    extra = 150 if a.tier == "quick" else 1500
     for _ in range(extra):
         n = rng.randint(1, 6)
         pairs.append((n, rng.getrandbits(n), rng.getrandbits(n)))
@@ -149,7 +149,7 @@ Definition sp (n : nat) (x y : N) : list Z :=
     except Exception as e:  # noqa: BLE001
         res.broken.append({"what": "correspondence C16 (superposition): model evaluation failed", "detail": str(e)[-1200:]})
     # mixed chains: Pauli gates then a non-Pauli gate -> general state with the same vector up to global phase
-    for _ in range(60 if a.tier == "quick" else 800):
+    for _ in range(150 if a.tier == "quick" else 800):
         n = rng.randint(1, 4)
         s0 = ComputationalBasisState(n, bits=rng.getrandbits(n))
         gl = []
